@@ -639,6 +639,11 @@ class HedTag:
         if self.short_tag.casefold() == other.short_tag.casefold():
             return True
 
+        # The text as written decides only for tags the schema does not know: an identified tag may have been
+        # changed since it was written (value filled in, Def swapped for Def-expand).
+        if self._schema_entry and other._schema_entry:
+            return False
+
         if self.org_tag.casefold() == other.org_tag.casefold():
             return True
         return False
